@@ -189,3 +189,14 @@ Example C12_accepted_text_example :
   end.
 Proof. vm_compute. split; reflexivity. Qed.
 Print Assumptions C12_accepted_text_example.
+
+(* names are whatever the tokenizer reads as a name: the first character need not be a letter,
+   a digit or an underscore ("#x", "\xc3\xa9", a lone "#") -- source: #x+\xe9(\xdf_1,#)*2 *)
+Example C12_accepted_text_example_odd_names :
+  let src := [35; 120; 43; 233; 40; 223; 95; 49; 44; 35; 41; 42; 50] in
+  match api_parse builtin_table src with
+  | Ok t => psaneb builtin_table t = true /\ api_parse builtin_table (expr builtin_table t) = Ok t
+  | _ => False
+  end.
+Proof. vm_compute. split; reflexivity. Qed.
+Print Assumptions C12_accepted_text_example_odd_names.
